@@ -44,4 +44,13 @@ TEXTS = {
                     "Counter-example search with shrinking."),
         level_note=("Trusted: 64-bit integer cross products of the harness, rapidcheck. All generated coordinates are dyadic; points nearer to the boundary than "
                     "the lattice step are not generated (the property excludes boundary points).")),
+    "C12": dict(
+        engine="rapidcheck",
+        technique="property-based testing (rapidcheck): generated data/lag/direction specifications vs an O(n^2) pairwise reference written in the harness; metamorphic relations (permutation, translation, variable swap); differential grid vs general algorithm",
+        design_ref="DESIGN.md §5 C12",
+        level_text=("Exploration: tens of thousands (quick) to ~700 000 (thorough) generated variogram calculations compared lag by lag (pair weights exactly, "
+                    "mean distance and estimator value to 1e-10) with the pairwise definition evaluated by brute force, plus metamorphic and differential "
+                    "relations. Counter-example search with shrinking."),
+        level_note=("Trusted: the harness's pair loop and its reading of the documented lag/direction/tolerance rules (listed as assumptions), rapidcheck. "
+                    "n<=150 samples; pairs within 1e-6.dpas of a class or angular limit are not generated.")),
 }
